@@ -16,6 +16,7 @@ from ..pyfront import dotted, call_name, kwarg, params, src, walk_no_nested, con
 from . import c05
 
 EXPLANATION = (
+    'indices_phi / psi / omega are evaluated on a two-chain model topology (quadruples never cross a chain boundary); dispatchers are evaluated on a model trajectory.  Further: '
     "Angle / dihedral definitions decided structurally: dispatch and FFI conformance as for distances; the initializer lists of "
     "the C kernels and the column selections of the numpy references are evaluated to lists of (from, to) atom slots and compared; "
     "a guard analysis shows the cosine is clipped on every path before acos; the dihedral is atan2(|b2| b1.(b2xb3), (b1xb2).(b2xb3)) "
